@@ -66,6 +66,12 @@ CLAIMED["C18"] = dict(
    technique="symbolic execution of parser + VM with symbolic digit bytes + SMT",
    ref="DESIGN.md §5 C18")
 
+CLAIMED["C03"] = dict(
+   text="Bounded model checking over symbolic tails: for 36 valid programs (one per statement / expression form) every 2-byte tail (quick: 34 representative bytes; thorough: all of ASCII) is appended and the input runs through the real parser and VM; on every accepting path Matched+RestInput == input and Matched has no trailing space are SMT verification conditions over the tail bytes, and a second VM evaluates Matched alone: value text, process text and variables must equal those of the full input and Matched must be consumed entirely.",
+   note="Dice in min mode (no randomness). Tails longer than 2 bytes are outside the claim. Many genuine findings of one root cause are recorded (code emitted by an abandoned PEG alternative survives): identified by failure kind, assertion and the first byte of the text given back; the process-text comparison is recorded as one class.",
+   technique="symbolic execution of parser + VM on symbolic tail bytes; relational (two-run) harness",
+   ref="DESIGN.md §5 C03")
+
 NA = {
 }
 
